@@ -63,7 +63,8 @@ def run_main(argv):
     try:
         with redirect_stdout(out), redirect_stderr(err):
             try:
-                peltool.main()
+                with common.deadline(6 * common.call_limit()):
+                    peltool.main()
             except SystemExit as e:
                 if e.code is None:
                     code = 0
@@ -72,6 +73,13 @@ def run_main(argv):
                 else:
                     err.write(str(e.code) + '\n')
                     code = 1
+            except common.Hang as e:
+                err.write('HANG: %s\n' % e)
+                code = -999
+            except BaseException:  # noqa  -- what the interpreter does with an uncaught exception: traceback on stderr, status 1
+                import traceback
+                err.write(traceback.format_exc())
+                code = 1
     finally:
         sys.argv = old
     return out.getvalue(), err.getvalue(), code
@@ -79,7 +87,10 @@ def run_main(argv):
 
 def run_sub(argv, optimise=False, stdin=None, stdout=None):
     cmd = [common.PY] + (['-O'] if optimise else []) + ['-W', 'ignore', PELTOOL] + list(argv)
-    p = subprocess.run(cmd, stdout=stdout or subprocess.PIPE, stderr=subprocess.PIPE, env=common.child_env(), timeout=120)
+    try:
+        p = subprocess.run(cmd, stdout=stdout or subprocess.PIPE, stderr=subprocess.PIPE, env=common.child_env(), timeout=120)
+    except subprocess.TimeoutExpired as e:
+        return (e.stdout or b'').decode(errors='replace'), 'HANG: no exit within 120 s\n' + (e.stderr or b'').decode(errors='replace'), -999
     return (p.stdout.decode(errors='replace') if p.stdout is not None else ''), p.stderr.decode(errors='replace'), p.returncode
 
 
